@@ -22,6 +22,9 @@ def one(m, repo, tests):
         for f in os.listdir(repo):
             if f.endswith(".go") or f in ("go.mod", "go.sum"):
                 shutil.copy(os.path.join(repo, f), d)
+        # the tests import the example service packages
+        if tests and os.path.isdir(os.path.join(repo, "examples")):
+            shutil.copytree(os.path.join(repo, "examples"), os.path.join(d, "examples"))
         r = subprocess.run([os.path.join(BIN, "mutate"), "-dir", repo, "-apply", str(m["id"]), "-out", d], capture_output=True, text=True)
         if r.returncode != 0:
             return dict(m, status="apply-error")
